@@ -26,7 +26,7 @@ T = {
  "M-C09-1": ("C09", "nearest conversion from floating point adds +-0.5 in the source type instead of long double (rounding/convert_operator.h)",
              "double source, nearest_rounding_tag: values adjacent to +-0.5 and odd integers in [2^52, 2^53) with a 64-bit destination", ["C09"]),
  "M-C11-1": ("C11", "wide_integer min_width no longer reserves the sign bit (wide_integer/definition.h)",
-             "signed wide/static integers whose digit count is a multiple of the limb width and > 127, value using the top digit", ["C11"]),
+             "signed wide/static integers whose digit count is a multiple of the limb width and > 127, value using the top digit", ["C11", "C10"]),
  "M-C12-1": ("C12", "same token swap as M-C03-1 proposed independently for the native-tag wrapper property (scaled_integer/operators.h)",
              "different exponents, coarser operand left, 64-bit left rep with narrower right rep, boundary values", ["C12", "C03"]),
  "M-C13-1": ("C13", "solve_fixed: num_integer_digits ignores a positive exponent, so trailing zeros are not budgeted (scaled_integer/to_chars.h)",
